@@ -1303,6 +1303,10 @@ func (ex *Exec) frameCond(pre, post *State, key string, s *Sort, targets []modTa
 		}
 		guard = sAnd(append(ownedOK, sImp(sNot(sOr(owned...)), guard))...)
 	}
+	if idxSort == "Ref" {
+		// the heap "at nil" is never read by executable code (a nil dereference panics)
+		excl = append(excl, sNot(sEq("r", "nil")))
+	}
 	return fmt.Sprintf("(forall ((r %s)) (! (=> %s (= (select %s r) (select %s r))) :pattern ((select %s r))))",
 		idxSort, sAnd(append([]string{guard}, excl...)...), a1, a0, a1)
 }
